@@ -3921,3 +3921,82 @@ func ruleApplierPropagatesErrors(c *Ctx, r *Reporter) {
 		r.Undecided("replication.EngineApplier", "-", "no engine operation found")
 	}
 }
+
+// ruleConnectAlwaysDials (round 8): whatever brought the replica to CONNECTING, connecting means dialing: every exit of
+// Replica.connectToPrimary passes connector.Connect. A lifetime budget of failed attempts that makes the function return
+// without dialing leaves the replica cycling CONNECTING → ERROR for ever once the budget is used up, link or no link.
+func ruleConnectAlwaysDials(c *Ctx, r *Reporter) {
+	r.Rule("connect-always-dials", 1)
+	fn := c.Func("pkg/replication", "Replica", "connectToPrimary")
+	cons := "replication.Replica.connectToPrimary"
+	if fn == nil {
+		r.Unresolved(cons, "not found")
+		return
+	}
+	var rets []ssa.Instruction
+	for _, ret := range Returns(fn) {
+		rets = append(rets, ret)
+	}
+	bad, path := MustPass(fn, rets, func(i ssa.Instruction) bool {
+		call, ok := i.(*ssa.Call)
+		return ok && call.Call.IsInvoke() && call.Call.Method.Name() == "Connect"
+	})
+	if bad != nil {
+		r.Bad(cons, c.InsPos(bad), "an exit of connectToPrimary does not pass connector.Connect: the replica can be told 'connection failed' without a dial having been attempted — with a budget of failed attempts that is never refilled it never dials again, however healthy the link", c.PathString(path)...)
+		return
+	}
+	r.OK(cons, c.FnPos(fn), "every exit has dialed")
+}
+
+// ruleStateDurationSinceLatestEntry (round 8): the back-off before a reconnect is computed from how long the replica has
+// been in ERROR *this time* (GetStateDuration), and this replica passes through ERROR after every applied batch. The
+// search for 'when did we enter the current state' must find the LATEST such transition: a descending walk that stops
+// at the first match, or an ascending walk that does not stop. (Ascending-and-stop measures from the first error ever:
+// the pause grows to the 60 s cap and a catch-up of N entries takes N/100 minutes.)
+func ruleStateDurationSinceLatestEntry(c *Ctx, r *Reporter) {
+	r.Rule("state-duration-counts-from-the-latest-entry", 1)
+	fn := c.Func("pkg/replication", "StateTracker", "GetStateDuration")
+	cons := "replication.StateTracker.GetStateDuration"
+	if fn == nil {
+		r.Unresolved(cons, "not found")
+		return
+	}
+	found := false
+	ok := false
+	why := ""
+	var pos ssa.Instruction
+	for _, w := range IndexWalks(fn) {
+		if w.Field == nil || !strings.HasPrefix(w.Field.Name(), "transitions") {
+			continue
+		}
+		found = true
+		pos = w.Loop.Header.Instrs[0]
+		early := false
+		for _, b := range fn.Blocks {
+			if !w.Loop.Contains(b) || b == w.Loop.Header {
+				continue
+			}
+			for _, s := range b.Succs {
+				if !w.Loop.Contains(s) {
+					early = true
+				}
+			}
+		}
+		switch {
+		case w.Dir == "desc":
+			ok = true
+		case w.Dir == "asc" && !early:
+			ok = true
+		case w.Dir == "asc":
+			why = "the transitions are searched oldest first and the search stops at the first match: the duration is counted from the FIRST time the replica ever entered the state, not from the latest — the reconnect back-off, computed from the time spent in ERROR, grows with the age of the replica up to its cap"
+		default:
+			why = "the direction of the search over the transitions could not be classified"
+		}
+	}
+	if !found {
+		r.Undecided(cons, c.FnPos(fn), "no walk over the recorded transitions found")
+		return
+	}
+	_ = pos
+	r.Check(ok, cons, c.FnPos(fn), "the latest transition into the current state is found", why)
+}
